@@ -11,7 +11,7 @@ env.setup()
 PROPERTY = "C20"
 LEVEL = "exploration"
 RULE = (
-    "Hypothesis grammar of STRL trees (Objective root; Min / Max / LessThan / Scale / Choose / Allocation, nesting as the Python "
+    "Hypothesis grammar of STRL trees (Objective root; Min / Max / LessThan / Scale / Choose / WindowedChoose / Allocation, nesting as the Python "
     "front-end builds them plus irregular shapes, occasional shared sub-expressions; <= 7 Choose leaves, 1-3 partitions of quantity 1-3, "
     "start times before / at / after `now`, durations 1-4) lowered by the repository's C++ code (built by the harness with a sequential "
     "TBB shim); the dumped MILP is rebuilt as GurobiSolver.cpp would and up to 30 solutions (solution pool, zero objective) plus the "
@@ -21,7 +21,9 @@ RULE = (
 )
 ASSUMPTIONS = [
     "the model is solved with gurobipy after a translation that mirrors GurobiSolver.cpp (missing lower bound 0, indicator = binary)",
-    "WindowedChoose / MalleableChoose are exercised only for driver-level validity in a separate class, not against the reference optimum",
+    "WindowedChoose is generated with first and last start slot on its own grid, as the Python front-end passes them (off-grid windows are "
+    "rounded inconsistently by the constructor and the Max parent; what an off-grid window means is not documented); MalleableChoose is not generated",
+    "windowed trees have no shared sub-expressions (a shared child of a LessThan that a pass prunes is satisfiable only with the pass)",
     "LessThan over two fixed-time leaves is independent of their satisfaction (as documented in Expression.cpp)",
 ]
 
@@ -32,7 +34,7 @@ def prepare_parent():
 
 # ----------------------------------------------------------------------------- generator
 @st.composite
-def trees(draw, gran=1, passes=None, irregular=False):
+def trees(draw, gran=1, passes=None, irregular=False, windowed=False):
     n_parts = draw(st.integers(1, 3))
     partitions = [{"id": i + 1, "q": draw(st.integers(1, 3))} for i in range(n_parts)]
     now = draw(st.integers(0, 3))
@@ -42,7 +44,7 @@ def trees(draw, gran=1, passes=None, irregular=False):
         nodes.append(n)
         return len(nodes) - 1
 
-    n_tasks = draw(st.integers(1, 4))
+    n_tasks = draw(st.integers(1, 3 if windowed else 4))
     tasks = []
     leaves = 0
     for t in range(n_tasks):
@@ -53,6 +55,18 @@ def trees(draw, gran=1, passes=None, irregular=False):
         n_opts = draw(st.integers(1, 3)) if leaves < 6 else 1
         base = now + draw(st.integers(-1, 3))
         starts = sorted({max(0, base + k * draw(st.integers(1, 2))) for k in range(n_opts)})
+        if windowed and draw(st.integers(0, 2)) > 0:
+            # one WindowedChoose instead of a Max over Chooses: any grid start in [start, last start]
+            # the front-end passes discretisation points that are not in the past as first and last start slot
+            wg = gran if gran > 1 else draw(st.sampled_from([1, 1, 2]))
+            w_start = -(-max(now, base) // wg) * wg
+            leaf = add({"kind": "WINDOWED", "name": f"t{t}", "parts": parts, "machines": machines, "start": w_start, "duration": duration,
+                        "end": w_start + wg * draw(st.integers(0, 3 if wg == 1 else 2)), "wgran": wg, "utility": utility})
+            leaves += 2
+            if draw(st.booleans()):
+                leaf = add({"kind": "MAX", "name": f"max{t}", "children": [leaf]})
+            tasks.append(leaf)
+            continue
         chooses = []
         for s_ in starts:
             chooses.append(add({"kind": "CHOOSE", "name": f"t{t}", "parts": parts, "machines": machines, "start": s_, "duration": duration,
@@ -89,7 +103,7 @@ def trees(draw, gran=1, passes=None, irregular=False):
             lt = add({"kind": "LESSTHAN", "name": f"lt{gi}", "children": [a, b]})
             groups.append(add({"kind": "MIN", "name": f"min{gi}", "children": [lt]}))
         gi += 1
-    if draw(st.integers(0, 4)) == 0 and len(tasks) >= 2:
+    if not windowed and draw(st.integers(0, 4)) == 0 and len(tasks) >= 2:
         # a shared sub-expression: one task referenced by a second parent
         shared = draw(st.sampled_from(tasks))
         other = draw(st.sampled_from([t for t in tasks if t != shared]))
@@ -104,11 +118,52 @@ def trees(draw, gran=1, passes=None, irregular=False):
 
 
 # ----------------------------------------------------------------------------- decoding
+def live_nodes(case, dump):
+    """Nodes that take part in the lowered expression: parsed with utility and reachable from the root through such nodes.
+    A sub-tree below a no-utility node (e.g. a LessThan one of whose children a pass pruned) may have left variables in
+    the model, but nothing reads them back: they are not decisions."""
+    tree = dump.get("tree") or {}
+    live, todo = set(), [case["root"]]
+    while todo:
+        i = todo.pop()
+        if i in live or (tree.get(str(i)) or {}).get("parsed") != 2:
+            continue
+        live.add(i)
+        todo.extend(case["nodes"][i].get("children", []))
+    return live
+
+
 def leaf_decisions(case, dump, val):
     """Read the leaf decisions of one model solution through the variable names the C++ code gives them."""
     by_name = {v["name"]: v["id"] for v in dump["vars"]}
     dec = {}
+    live = live_nodes(case, dump)
     for i, n in enumerate(case["nodes"]):
+        if i not in live:
+            continue
+        if n["kind"] == "WINDOWED":
+            chosen = []
+            for vname, vid in by_name.items():
+                m_ = re.match(rf"^{re.escape(n['name'])}_placed_at_(\d+)_for_", vname)
+                if not m_:
+                    continue
+                t = int(m_.group(1))
+                alloc = {}
+                for pid in n["parts"]:
+                    avid = by_name.get(f"{n['name']}_using_partition_{pid}_at_{t}")
+                    if avid is not None and int(round(val(avid))):
+                        alloc[pid] = int(round(val(avid)))
+                if val(vid) > 0.5:
+                    chosen.append((t, alloc))
+                elif alloc:
+                    dec[("ghost", i, t)] = alloc
+            wi = by_name.get(f"{n['name']}_window_indicator")
+            if wi is None:
+                continue  # no utility: not in the model
+            if len(chosen) > 1 or (val(wi) > 0.5) != (len(chosen) == 1):
+                dec[("ghost", i, "indicator")] = {"window_indicator": val(wi), "chosen": chosen}
+            dec[i] = chosen[0] if chosen else None
+            continue
         if n["kind"] != "CHOOSE":
             continue
         ind = by_name.get(f"{n['name']}_placed_at_{n['start']}_for_s{i}")
@@ -141,6 +196,15 @@ def check_solution(case, dump, val, objective, V, label):
         V.append(Violation("unsatisfied_choose_uses_resources", f"[{label}] unsatisfied Choose nodes hold resources {ghosts}; case={case}", "strl.unsatisfied_choose_uses_resources" + tag))
         return False
     for i, a in dec.items():
+        if a is not None and case["nodes"][i]["kind"] == "WINDOWED":
+            t0, al = a
+            n = case["nodes"][i]
+            if sum(al.values()) != n["machines"] or t0 not in strl.windowed_starts(case, n):
+                wrapped = ".start_slot_wrapped_below_zero" if t0 > 2 ** 31 else ""
+                V.append(Violation("choose_amount", f"[{label}] WindowedChoose {i} satisfied at {t0} with allocation {al}, demand {n['machines']}, "
+                                                    f"start slots {strl.windowed_starts(case, n)}; case={case}", "strl.windowed_choose_amount_or_slot" + wrapped + tag))
+                return False
+            continue
         if a is not None and sum(a.values()) != case["nodes"][i]["machines"]:
             V.append(Violation("choose_amount", f"[{label}] Choose {i} satisfied with allocation {a}, demand {case['nodes'][i]['machines']}; case={case}", "strl.choose_amount" + tag))
             return False
@@ -167,6 +231,9 @@ def check_solution(case, dump, val, objective, V, label):
     for i, a in dec.items():
         if a is not None:
             n = case["nodes"][i]
+            if n["kind"] == "WINDOWED":
+                sat.setdefault(n["name"], []).append((a[0], a[0] + n["duration"], a[1], n["machines"]))
+                continue
             sat.setdefault(n["name"], []).append((n["start"], n["start"] + n["duration"], a, n["machines"]))
     for pl in res["placements"]:
         cands = sat.get(pl["name"], [])
@@ -235,6 +302,8 @@ def execute(case):
     if err is not None:
         if "must have at least one child with utility" in err:
             res.discard = "max_without_live_children"
+        elif "time bounds wrapped below zero" in err:
+            V.append(Violation("pass_wraps_time_bounds", f"{err}; case={case}", "strl.pass_wraps_time_bounds.windowed_choose." + "+".join(case.get("passes", []))))
         else:
             V.append(Violation("lowering_raises", f"parse failed: {err}; case={case}", "strl.lowering_raises." + re.sub(r"[^A-Za-z]+", "_", err)[:50]))
         return res
@@ -250,18 +319,25 @@ def execute(case):
         V.append(Violation("model_infeasible", f"the generated model has no solution (status {info['status']}) although leaving every leaf unsatisfied is valid "
                                               f"(brute-force optimum {best}); case={case}", "strl.model_infeasible" + tag))
     elif not V and abs(info["opt"] - best) > 1e-6:
+        cause = infeasibility_cause(case) if info["opt"] < best else ""
+        if not cause and info["opt"] < best and "critical_path" in case.get("passes", []) and any(
+                n["kind"] == "WINDOWED" and n["duration"] % n["wgran"] for n in case["nodes"]):
+            cause = ".windowed_end_bound_rounded_up_to_granularity"
         V.append(Violation("optimum_differs", f"model optimum {info['opt']} != brute-force optimum {best} (decisions {best_dec}); case={case}",
-                           "strl.optimum_differs" + (".model_lower" if info["opt"] < best else ".model_higher") + tag
-                           + (infeasibility_cause(case) if info["opt"] < best else "")))
-    leaves = [i for i, n in enumerate(case["nodes"]) if n["kind"] == "CHOOSE"]
+                           "strl.optimum_differs" + (".model_lower" if info["opt"] < best else ".model_higher") + tag + cause))
+    leaves = [i for i, n in enumerate(case["nodes"]) if n["kind"] in strl.LEAF_KINDS]
     all_sat_util = None
     has_order = any(n["kind"] == "LESSTHAN" for n in case["nodes"])
     # capacity conflict: the optimum leaves some task unsatisfied
-    tasks = {case["nodes"][i]["name"] for i in leaves if case["nodes"][i]["start"] >= case["now"]}
+    tasks = {case["nodes"][i]["name"] for i in leaves if case["nodes"][i]["start"] >= case["now"] or case["nodes"][i]["kind"] != "CHOOSE"}
     sat_tasks = {case["nodes"][i]["name"] for i, a in (best_dec or {}).items() if a is not None}
     res.nontrivial = has_order or bool(tasks - sat_tasks)
     res.classes = ["passes=" + ("+".join(case["passes"]) or "none"), "ordering" if has_order else "no_ordering",
                    "conflict" if tasks - sat_tasks else "all_tasks_satisfiable"]
+    if any(n["kind"] == "WINDOWED" for n in case["nodes"]):
+        res.classes.append("windowed_choose")
+        if any(n["kind"] == "WINDOWED" and any(t > n["end"] for t in strl.windowed_starts(case, n)) for n in case["nodes"]):
+            res.classes.append("window_rounded_past_last_start")
     return res
 
 
@@ -295,7 +371,16 @@ def unsatisfied_start_bound(case, i):
     n = case["nodes"][i]
     k = n["kind"]
     if k == "MAX":
-        starts = [case["nodes"][c]["start"] for c in n["children"] if case["nodes"][c]["start"] >= case["now"]]
+        starts = []
+        for c in n["children"]:
+            cn = case["nodes"][c]
+            if cn["kind"] == "WINDOWED":
+                starts += strl.windowed_starts(case, cn)
+            elif cn["start"] >= case["now"]:
+                starts.append(cn["start"])
+        return min(starts) if starts else None
+    if k == "WINDOWED":
+        starts = strl.windowed_starts(case, n)
         return min(starts) if starts else None
     if k in ("SCALE", "LESSTHAN"):
         return unsatisfied_start_bound(case, n["children"][0])
@@ -334,12 +419,16 @@ def exec_passes(case):
         info, err = analyse(c, V, res, enumerate_solutions=False)
         name = "+".join(passes)
         if err is not None:
-            V.append(Violation("pass_breaks_lowering", f"with passes {passes}: {err}; case={case}", f"strl.pass_breaks_lowering.{name}"))
+            why = ".max_left_with_no_utility_children_only" if "must have at least one child with utility" in err else ""
+            V.append(Violation("pass_breaks_lowering", f"with passes {passes}: {err}; case={case}", f"strl.pass_breaks_lowering.{name}{why}"))
         elif info["opt"] is None:
             V.append(Violation("pass_makes_model_infeasible", f"with passes {passes} the model has no solution; without {info0['opt']}; case={case}", f"strl.pass_makes_model_infeasible.{name}"))
         elif abs(info["opt"] - info0["opt"]) > 1e-6:
+            why = ""
+            if info["opt"] < info0["opt"] and "critical_path" in passes and any(n["kind"] == "WINDOWED" and n["duration"] % n["wgran"] for n in case["nodes"]):
+                why = ".windowed_end_bound_rounded_up_to_granularity"
             V.append(Violation("pass_changes_optimum", f"optimum {info['opt']} with passes {passes}, {info0['opt']} without; case={case}",
-                               f"strl.pass_changes_optimum.{name}" + (".lower" if info["opt"] < info0["opt"] else ".higher")))
+                               f"strl.pass_changes_optimum.{name}" + (".lower" if info["opt"] < info0["opt"] else ".higher") + why))
         if V:
             break
     res.nontrivial = any(n["kind"] in ("LESSTHAN", "MIN") for n in case["nodes"])
@@ -379,8 +468,9 @@ def exec_coarse(case):
 
 
 CHECKS = [
-    Check("frontend_trees", execute, strategy=lambda tier: trees(), budget={"quick": 120, "thorough": 6000}),
-    Check("irregular_trees", execute, strategy=lambda tier: trees(irregular=True), budget={"quick": 48, "thorough": 2000}),
-    Check("passes_metamorphic", exec_passes, strategy=lambda tier: trees(passes=[]), budget={"quick": 48, "thorough": 2000}),
-    Check("coarse_discretization", exec_coarse, strategy=lambda tier: st.sampled_from([2, 3]).flatmap(lambda g: trees(gran=g, passes=[])), budget={"quick": 60, "thorough": 2000}),
+    Check("frontend_trees", execute, strategy=lambda tier: trees(), budget={"quick": 320, "thorough": 12000}),
+    Check("irregular_trees", execute, strategy=lambda tier: trees(irregular=True), budget={"quick": 128, "thorough": 4000}),
+    Check("passes_metamorphic", exec_passes, strategy=lambda tier: st.booleans().flatmap(lambda w: trees(passes=[], windowed=w)), budget={"quick": 128, "thorough": 4000}),
+    Check("coarse_discretization", exec_coarse, strategy=lambda tier: st.sampled_from([2, 3]).flatmap(lambda g: trees(gran=g, passes=[])), budget={"quick": 128, "thorough": 4000}),
+    Check("windowed_trees", execute, strategy=lambda tier: trees(windowed=True), budget={"quick": 320, "thorough": 12000}),
 ]
